@@ -143,6 +143,10 @@ type WTx struct {
 	// update but closes its files (a process that exits, or is killed, right after COMMIT): the kernel's release of
 	// the -shm descriptor drops every shm lock at once, WRITE included.
 	CloseAfter bool
+	// Torn (only with Outcome "rollback"): after the complete frames one more frame is begun and abandoned:
+	// 1 = its 24-byte header only, 2 = header and half of the page. The write stops there (an interrupted
+	// statement, or a process that dies), the write lock is released.
+	Torn int
 	// FromWAL rewrites page 1 with rollback-mode header bytes (not a legal direct switch; unused by default).
 }
 
@@ -679,6 +683,25 @@ func (c *Conn) RunWTx(tx WTx, cur *oracle.Image) (res WTxResult) {
 		frameNo++
 	}
 	res.WALSize = 32 + int64(frameNo)*c.walFrameSize() - res.WALOffset
+	if !commit && tx.Torn > 0 {
+		off := 32 + int64(frameNo)*c.walFrameSize()
+		fh := make([]byte, 24)
+		binary.BigEndian.PutUint32(fh[0:], 2)
+		binary.BigEndian.PutUint32(fh[8:], w.Salt[0])
+		binary.BigEndian.PutUint32(fh[12:], w.Salt[1])
+		body := MakePage(c.PageSize, 2, 0x7ea7)
+		c0, c1 := walCk(bo, ck[0], ck[1], fh[:8])
+		c0, c1 = walCk(bo, c0, c1, body)
+		binary.BigEndian.PutUint32(fh[16:], c0)
+		binary.BigEndian.PutUint32(fh[20:], c1)
+		err := c.walWrite(fmt.Sprintf("wal write frame %d hdr (torn)", frameNo+1), off, fh)
+		if err == nil && tx.Torn == 2 {
+			err = c.walWrite(fmt.Sprintf("wal write frame %d half page (torn)", frameNo+1), off+24, body[:len(body)/2])
+		}
+		if c.wfail(&res, "wal frame (torn)", err) {
+			return
+		}
+	}
 	if !commit {
 		// walUndo: nothing reaches the wal-index; the frames stay in the file beyond mxFrame.
 		return
